@@ -526,3 +526,63 @@ Proof.
   - split; intros ?; intros; exact I.
   - split; [apply wp_step; assumption|apply cs_step; assumption].
 Qed.
+
+(* ------------------------------------------------------------------ copy_safe (no panic) *)
+(* Segment.writePtr with a pointer from another (hostile) message: Struct.SetPtr, PointerList.Set,
+   Message.SetRoot across messages.  Any fuel, any limits. *)
+Theorem write_ptr_safe f w dsid off src fc :
+  dok (w_dst w) -> msg_ok (w_src w) -> 0 <= w_src_rl w -> region_ok (w_dst w) dsid off 8 ->
+  wf_ptr (w_src w) src -> shape_ok src ->
+  rpost w (write_ptr f true w dsid off InSrc src fc).
+Proof. destruct (copy_all f) as [H _]. apply H. Qed.
+
+(* copyStruct: List.SetStruct / Struct.CopyFrom across messages *)
+Theorem copy_struct_safe f w dst src :
+  dok (w_dst w) -> msg_ok (w_src w) -> 0 <= w_src_rl w -> dst_ok (w_dst w) dst ->
+  wf_struct (w_src w) src ->
+  rpost w (copy_struct f true w dst InSrc src).
+Proof. destruct (copy_all f) as [_ H]. apply H. Qed.
+
+(* every pointer the reader hands out has the shape writePtr needs *)
+Theorem reader_ptr_shape strict m rl sid s paddr depth q :
+  fst (readPtr strict m rl sid s paddr depth) = Ok q -> shape_ok q.
+Proof. exact (readPtr_shape strict m rl sid s paddr depth q). Qed.
+(* ... and so have the elements of a composite list it handed out *)
+Lemma list_struct_shape fd p i e : shape_ok p -> p_kind p = KList -> p_comp p = true ->
+  list_struct fd p i = Ok e -> shape_ok e.
+Proof.
+  intros Hs K C. unfold list_struct. destruct (_ || _ || _) eqn:E; [discriminate|].
+  assert (p_valid p = true) as V by (destruct (p_valid p); [reflexivity|discriminate]).
+  specialize (Hs V). rewrite K, C in Hs.
+  destruct (p_bit p); [intros H; inversion H; apply shape_null|].
+  destruct (element _ _ _); intros H; inversion H; [|apply shape_null].
+  intros _. cbn [p_kind p_size]. apply Hs.
+Qed.
+
+(* FINDING (reproduced on the Go code, repo 38ec570): without [shape_ok] the statement is
+   false.  List.Struct(i) on a byte list hands out a Struct of DataSize 1 (what generated
+   StructList.At(i) does when a hostile message supplies a byte list for a List(struct)
+   field); copying it with SetRoot / SetPtr panics in rawStructPointer ("data size not
+   aligned by word"). *)
+Definition unaligned_msg : segs := [[0;0;0;0;0;0;1;0;  1;0;0;0;26;0;0;0;  104;105;0;0;0;0;0;0]].
+Example copy_unaligned_refuted :
+  let c := mkCfg 0 0 true true in
+  msg_ok unaligned_msg /\
+  exists r l e m0,
+    fst (root c unaligned_msg 1000) = Ok r /\
+    fst (struct_ptr c unaligned_msg 1000 r 0) = Ok l /\
+    list_struct true l 0 = Ok e /\ wf_ptr unaligned_msg e /\ p_size e = mkOS 1 0 /\
+    new_message ASingle [] 0 = Ok m0 /\ dok m0 /\
+    set_root 8 (mkW m0 unaligned_msg 1000) InSrc e = Panic.
+Proof.
+  split; [repeat constructor; cbn; try lia; unfold maxSegmentSize; lia|].
+  do 4 eexists. split; [vm_compute; reflexivity|]. split; [vm_compute; reflexivity|].
+  split; [vm_compute; reflexivity|]. split.
+  { intros _. split; [cbn; lia|]. unfold wf_obj, wf_size. cbn. lia. }
+  split; [reflexivity|]. split; [vm_compute; reflexivity|]. split.
+  { split; [split|].
+    - repeat constructor; cbn; lia.
+    - intros _. reflexivity.
+    - intros i. unfold mem, get_seg. cbn. destruct (Z.to_nat i) as [|[|n]]; cbn; unfold maxSegmentSize; lia. }
+  vm_compute. reflexivity.
+Qed.
